@@ -455,10 +455,12 @@ func (k Keeper) LiquidateForSurplusAndDebt(ctx sdk.Context) error {
 	for _, data := range auctionMapData {
 		killSwitchParams, _ := k.esm.GetKillSwitchData(ctx, data.AppId)
 		if !data.IsAuctionActive && !killSwitchParams.BreakerEnable {
-			err := k.CheckStatsForSurplusAndDebt(ctx, data.AppId, data.AssetId)
-			if err != nil {
-				return err
-			}
+			appID, assetID := data.AppId, data.AssetId
+			// each kick-off is all-or-nothing: a failure after the lot has left the collector must not leave
+			// the transfer behind, and must not stop the remaining mappings from being looked at
+			_ = utils.ApplyFuncIfNoError(ctx, func(ctx sdk.Context) error {
+				return k.CheckStatsForSurplusAndDebt(ctx, appID, assetID)
+			})
 		}
 
 	}
